@@ -120,6 +120,15 @@ def check_batch(o):
                 if r:
                     bad.append((r, {"edges": c["E"], "mode": c["mode"], "bias": c["bias"]}, None))
                 if dtype is np.float64 and not r:
+                    # a model that was not built for increments refuses them - and is exactly what it was afterwards
+                    try:
+                        m.increment(data[:2].copy())
+                        bad.append((tag + ": a model built with incremental=False accepted an increment", {}, None))
+                    except Exception:
+                        r2 = _check_stats(m, o["stats"], o["queries"], tag + ", after a refused increment", tol, nv, c["E"])
+                        if r2:
+                            bad.append((r2, {"edges": c["E"], "mode": c["mode"], "bias": c["bias"]}, None))
+                if dtype is np.float64 and not r:
                     if dense64 is None:
                         dense64 = _dense(m.precision)
                     elif not np.allclose(dense64, _dense(m.precision), atol=1e-10, rtol=0):
